@@ -3,6 +3,7 @@ package mon
 
 import (
 	_ "verifharness/mon/c01"
+	_ "verifharness/mon/c02"
 	_ "verifharness/mon/c05"
 	_ "verifharness/mon/c11"
 	_ "verifharness/mon/c14"
